@@ -71,6 +71,9 @@ STRENGTHENED = {
     "C18-7": "SDL schemas with delicate string defaults (tab / space led block strings, > 70 characters, trailing quote / backslash); also C08, C17",
     "C20-7": "build mode split_base_av: base built with assume_valid=True, then extended",
     "C20-8": "five request shapes (syntax error, empty, invalid, unknown operation, bad variables) against every invalid schema",
+    # wave 5
+    "C04-11": "same change as C04-2 (third independent delivery)",
+    "C06-10": "request failing_defer_owns_streaming_child (a failing deferred fragment whose nested fragment completed early and owns a stream)",
     "C20-3": "schemas derived (to_kwargs / sort / extend) from an already validated invalid schema",
     "C20-5": "default cycles through lists nested inside a default object (3 entries + 1 legal near miss)",
 }
